@@ -22,6 +22,7 @@ FINDINGS = {
     "D19": ("RMW atomicity against loads: two loads by one thread order a concurrent store after the store an RMW read, another pair of loads orders it before the RMW's own store (mo: 20, 10, 21 with 21 = fetch_add of 20); the store-time RMW-atomicity rule (fix 189e88b) and the transitive load rule (fix c0421c4) do not close the modification order under atomicity when LOADS add the edges", "src/rt/atomic.rs apply_load_coherence (the clock of the loaded store is raised without the RMW-atomicity closure)", "A0 | sp 1 ; sp 2 ; sp 3 ; jn 1 ; jn 2 ; jn 3 | st 0 10 rlx | st 0 20 rlx ; rmw 0 add 1 rlx | ld 0 rlx ; ld 0 rlx ; ld 0 rlx"),
     "D21": ("SeqCst fences are ordered by execution order: an outcome that C11/RC11 allows only when a fence executed LATER precedes an earlier one in the SC order S (possible when the only link between them is a chain of relaxed reads-from through a third thread) is never explored", "src/rt/execution.rs / src/rt/atomic.rs fence_seqcst (operational semantics: S = execution order)", "A0 A0 A0 | sp 1 ; sp 2 ; sp 3 ; jn 1 ; jn 2 ; jn 3 | st 0 1 rlx ; fn sc ; st 1 1 rlx | ld 1 rlx ; st 2 1 rlx | ld 2 rlx ; fn sc ; ld 0 rlx"),
     "D22": ("a lazy static whose initialiser contains a scheduling point is initialised more than once per execution: Lazy::get runs the initialiser outside the execution lock, a second thread arriving meanwhile runs it too, the first to finish registers its value and the other value is dropped at once (all threads still see ONE instance)", "src/lazy_static.rs Lazy::get ('the first thread to get here wins')", "A0 | sp 1 ; lz 2 ; jn 1 | lz 2"),
+    "D24": ("yield_now is invisible to DPOR although it constrains scheduling (the yielding thread is not scheduled before another thread has taken a step): an outcome that needs the yield to happen EARLIER than the point at which DPOR reverses the race that follows it is never explored by the unbounded run; bounded runs find it through their conservative backtrack points, so their result set is not a subset of the unbounded one", "src/rt/mod.rs yield_now (operation = None: no DPOR access) / src/rt/execution.rs schedule", "A0 | sp 1 ; rmw 0 add 1 sc ; st 0 5 sc ; jn 1 | yl ; ld 0 sc"),
     "D15": ("condvar/notify: a wake-up is delivered as a park token to a thread that is not parked yet (notify before the waiter parks) or consumed by a later park", "src/rt/condvar.rs, src/rt/notify.rs", "see instances"),
 }
 
@@ -34,6 +35,8 @@ def classify(prog, dev):
         return "D5"
     if dev.startswith("tls:lazy static 2 initialised twice"):
         return "D22"
+    if kind == "missing" and has("yl") and prog.startswith("pbY"):
+        return "D24"
     if kind in ("missing", "missed-failure") and has("trv"):
         return "D6"
     if has("pk", "up"):
